@@ -112,10 +112,11 @@ def dds_hash(x: Any) -> PyHash:
         if isinstance(elt, int):
             if -(2**31) <= elt < 2**31:
                 return _algo_bytes(struct.pack("!l", elt))
-            # Outside of the range of struct's 'l' format: tagged decimal encoding.
+            # Outside of the range of struct's 'l' format: tagged hexadecimal encoding
+            # (unlike str(), format(.., "x") has no limit on the number of digits).
             # The tag is not valid UTF-8 and is longer than any fixed-width number encoding,
             # so it cannot collide with the encoding of a string, an int or a float.
-            return _algo_bytes(b"\xff__DDS_BIGINT__" + str(elt).encode("utf-8"))
+            return _algo_bytes(b"\xff__DDS_BIGINT__" + format(elt, "x").encode("utf-8"))
         if isinstance(elt, CanonicalPath):
             return _algo_str(repr(elt))
         if isinstance(elt, list):
